@@ -48,7 +48,10 @@ def next_id_processor(u):
     ], iter_name="it", kind="for")
     f.insert_at(f.loop_open_brace(f.loops()[0][2]) + 1, " proof { lemma_sum_missing_mono(map_results@, it.index@ + 1); "
                 "assert(map_results@.take(it.index@ + 1).drop_last() == map_results@.take(it.index@)); }")
-    f.before_stmt("if ref_id_result == 0", "proof { assert(map_results@.take(map_results@.len() as int) == map_results@); lemma_max_id_bounds(map_results@); }\n        ")
+    _lp = f.loops()[0]
+    from weave import lexer as _lx
+    _cb = _lx.match_close(f.body, f.loop_open_brace(_lp[2]))
+    f.insert_at(_cb + 1, "\n        proof { assert(map_results@.take(map_results@.len() as int) == map_results@); lemma_max_id_bounds(map_results@); }")
     u.raw("}\n}\n")
 
 
